@@ -165,10 +165,14 @@ AllNoRepeat(Sc) == /\ \A i \in 1..Len(Sc.cols) : NoRepeat(Sc.cols[i].checks)
 VARIABLES s0, fmt, pc, doc, s1, doc2, mods
 vars == <<s0, fmt, pc, doc, s1, doc2, mods>>
 
+(* the attributes a modification writes: two modifications of one pair never write the same attribute (a datetime    *)
+(* column whose dtype is then overwritten would be an ill-typed schema - a Timestamp bound on a bool column - that     *)
+(* the statistics form is not meant to carry)                                                                        *)
+Touches(at) == IF at \in {"a.datetime", "a.timedelta"} THEN {"a.dtype", "a.checks"} ELSE {at}
 Init == /\ \E at1 \in Ats : \E v1 \in Vals(at1) :
              \/ /\ s0 = Apply(Base, at1, v1) /\ mods = <<at1>>
              \/ /\ Pairwise
-                /\ \E at2 \in {x \in Ats : x # at1} : \E v2 \in Vals(at2) :
+                /\ \E at2 \in {x \in Ats : x # at1 /\ Touches(x) \cap Touches(at1) = {}} : \E v2 \in Vals(at2) :
                       /\ s0 = Apply(Apply(Base, at1, v1), at2, v2) /\ mods = <<at1, at2>>
         /\ fmt \in {"yaml", "json", "script"}
         /\ pc = "schema" /\ doc = <<>> /\ s1 = <<>> /\ doc2 = <<>>
